@@ -308,7 +308,7 @@ def run(rep, db, tier, seed):
         T = Types(db)
     except (Unmodelled, KeyError) as u:
         rep.add(Obligation('scope types', 'inconclusive', str(u)[:500])); return
-    for fn in (check_set_err, check_guards, check_task, check_scope_run, check_spawn_kind, lambda r, d, t: check_schedules(r, d, t, tier)):
+    for fn in (check_set_err, check_guards, check_task, check_scope_run, check_spawn_kind, lambda r, d, t: check_schedules(r, d, t, tier), check_child_ctx):
         try:
             fn(rep, db, T)
         except (Unmodelled, KeyError, BoundExceeded) as u:
@@ -728,4 +728,138 @@ def check_schedules(rep, db, T, tier='quick'):
                 viol.setdefault('sched:wrong-error', f'the scope returns {"Ok" if result.variant == 0 else got} but the first task to fail was task {fail_order[0]} (failures in order {fail_order}) ({case})')
     rep.absorb_stats(ex.stats)
     for k, text in viol.items(): rep.violation(Violation(PROP, k, text, None, None, 'Scope::run with tasks under cooperative schedules'))
+    rep.add(Obligation(name, 'violated' if viol else 'discharged', paths=n, wall_s=round(time.time() - t0, 1)))
+
+
+# ------------------------------------------------------------------------------------------------ child contexts
+def check_child_ctx(rep, db, T):
+    """`Ctx::child_with_clock` and the watcher task it spawns (ctx/mod.rs:131-156), the mechanism behind "cancellation reaches
+    every descendant context" and "the context is cancelled when its deadline passes". The real constructor and the real
+    watcher coroutine (including the expansion of `tokio::select!`) are executed; the clock's sleep, the two cancellation
+    signals, tokio's spawn and the select's random start index are answered by contract. For every combination of parent
+    deadline / requested deadline (infinite or finite, symbolic instants), current instant, parent cancelled or not:
+     - the child's reported deadline is min(parent deadline, requested deadline);
+     - the child is cancelled iff the parent is cancelled or the effective deadline has passed (and a watcher exists);
+     - otherwise the watcher stays pending and sends nothing."""
+    name = 'Ctx::child: the child is cancelled when the parent is cancelled or the effective (minimum) deadline passes, and not otherwise'
+    t0 = time.time()
+    CC = 'zksync_concurrency'
+    ex = Exec(db, loop_bound=12); cur = [None]
+    env.install(ex); coro.install_futures(ex)
+    mk = Mk(db, CC)
+    n_before = len(ex.user_models)
+    log = lambda: cur[0]['log']
+    try:
+        key = db.find_one(r'zksync_concurrency::ctx::Ctx::child_with_clock', kinds=('fn', 'inst'))
+        dl_t = mk.ty(r'zksync_concurrency::time::Deadline')
+        inner_t = mk.ty(r'zksync_concurrency::ctx::Inner')
+        ctx_t = mk.ty(r'zksync_concurrency::ctx::Ctx')
+    except (KeyError, Unmodelled) as u:
+        rep.add(Obligation(name, 'inconclusive', str(u)[:400])); return
+
+    def deadline(kind, instant):
+        return T.variant(dl_t, 'Infinite') if kind == 'inf' else T.variant(dl_t, 'Finite', instant)
+    def dl_parts(d):
+        d = deref_all(d)
+        return (variant_name(d), d.fields[0] if d.fields else None)
+
+    def dl_min(e, n, a):
+        (ka, ia), (kb, ib) = dl_parts(a[0]), dl_parts(a[1])
+        if ka == 'Infinite': return a[1]
+        if kb == 'Infinite': return a[0]
+        return a[0] if e.branch(ia.e <= ib.e) else a[1]
+    ex.model(r'std::cmp::min::<zksync_concurrency::time::Deadline>|core::cmp::min::<zksync_concurrency::time::Deadline>|<zksync_concurrency::time::Deadline as std::cmp::Ord>::min', dl_min)
+    ex.model(r'zksync_concurrency::signal::Once::new', lambda e, n, a: OnceV())
+    def once_send(e, n, a):
+        o = deref_all(a[0]); o.sent = True; log().append(('send', getattr(o, 'label', '?'))); return UNIT
+    ex.model(r'zksync_concurrency::signal::Once::send', once_send)
+    def once_recv(e, n, a):
+        o = deref_all(a[0])
+        return EnvFuture('Once::cancel_safe_recv', lambda e2: ready(UNIT) if o.sent else pending())
+    ex.model(r'zksync_concurrency::signal::Once::cancel_safe_recv', once_recv)
+
+    def sleep_until(e, n, a):
+        d = a[1]
+        def respond(e2):
+            k, inst = dl_parts(d)
+            log().append(('sleep-polled', k))
+            if k == 'Infinite': return pending()
+            return ready(UNIT) if e2.branch(inst.e <= cur[0]['now'].e) else pending()
+        return EnvFuture('Clock::sleep_until', respond)
+    ex.model(r'zksync_concurrency::ctx::(clock::)?Clock::sleep_until', sleep_until)
+    ex.model(r'<zksync_concurrency::ctx::(clock::)?Clock as std::clone::Clone>::clone', lambda e, n, a: Opaque('clock'))
+    ex.model(r'zksync_concurrency::ctx::rng::Provider::split', lambda e, n, a: Opaque('rng'))
+    ex.model(r'tokio::macros::support::thread_rng_n', lambda e, n, a: Num(e.choose(3, 'select_start'), 32))
+    ex.model(r'tokio::(task::coop|macros::support|runtime::coop|coop)::poll_budget_available', lambda e, n, a: ready(UNIT))
+
+    def tokio_spawn(e, n, a):
+        cur[0]['watcher'] = Cell(a[0]); log().append(('spawn',)); return Opaque('join handle')
+    ex.model(r'tokio::task::spawn::<.*>|tokio::spawn::<.*>|tokio::task::spawn::spawn::<.*>', tokio_spawn)
+    ex.model(r'<tokio::task::JoinHandle<.*> as std::ops::Drop>::drop|<tokio::runtime::task::JoinHandle<.*> as std::ops::Drop>::drop', lambda e, n, a: UNIT)
+
+    def poll_adt(e, f, fut_ref):
+        nm = f.name or ''
+        if 'PollFn' in nm or 'poll_fn' in nm:
+            return e.call_closure(f.fields[0], [Ref(Cell(Opaque('task_context')))])
+        return NotImplemented
+    ex.poll_adt = poll_adt
+    mine = ex.user_models[n_before:]; del ex.user_models[n_before:]; ex.user_models[0:0] = mine; ex._um_cache = {}
+    viol = {}; n = 0; covered = set()
+
+    def body(ex):
+        s = dict(log=[], watcher=None); cur[0] = s
+        now = ex.fresh('now', 64); s['now'] = now
+        pk = pick(ex, 'parent_deadline', ('inf', 'fin')); ck = pick(ex, 'requested_deadline', ('inf', 'fin'))
+        tp = ex.fresh('parent_deadline_at', 64); tc = ex.fresh('requested_deadline_at', 64)
+        parent_cancelled = pick(ex, 'parent_cancelled', (False, True))
+        p_once = OnceV(); p_once.label = 'parent'; p_once.sent = parent_cancelled
+        fs = inner_t['info']['variants'][0]['fields']
+        vals = dict(clock=Opaque('clock'), rng_provider=Opaque('rng'), canceled=BoxV(p_once), deadline=deadline(pk, tp), _parent=none())
+        if set(f['name'] for f in fs) != set(vals): raise Unmodelled(f'ctx Inner fields changed: {[f["name"] for f in fs]}')
+        inner = Agg('adt', inner_t, 0, [vals[f['name']] for f in fs])
+        parent = Agg('adt', ctx_t, 0, [BoxV(inner)])
+        child = ex.call_key(key, [Ref(Cell(parent)), Opaque('clock'), deadline(ck, tc)])
+        cinner = deref_all(child.fields[0])
+        c_once = deref_all(fld(cinner, 'canceled')); c_once.label = 'child'
+        reported = dl_parts(fld(cinner, 'deadline'))
+        r = None
+        if s['watcher'] is not None:
+            r = coro.poll_value(ex, Ref(s['watcher']))
+        return pk, ck, tp, tc, now, parent_cancelled, reported, c_once.sent, (None if r is None else r.variant), list(s['log'])
+    try:
+        res = explore(ex, body, budget_s=300)
+    except (Unmodelled, BoundExceeded, KeyError) as u:
+        rep.absorb_stats(ex.stats); rep.add(Obligation(name, 'inconclusive', f'{type(u).__name__}: {u}'[:900])); return
+    rep.absorb_stats(ex.stats)
+
+    def decide(pc, k, text, cond):
+        if k in viol: return
+        st, m = solve(pc, z3.Not(cond))
+        if st == 'sat': viol[k] = text + ' | ' + ', '.join(f'{d.name()}={m[d]}' for d in m.decls() if d.arity() == 0 and '!' not in d.name())[:300]
+        elif st != 'unsat': raise Unmodelled('solver unknown')
+    for kind, val, pc, _ in res:
+        n += 1
+        if kind == 'panic':
+            st, m = solve(pc, None)
+            if st == 'sat': viol.setdefault('ctx:' + panic_key(val), f'Ctx::child / its watcher panics: {val[0]} at {val[1]}')
+            continue
+        pk, ck, tp, tc, now, pcan, reported, child_sent, rv, lg = val; rep.nontrivial += 1
+        # effective deadline
+        if pk == 'inf' and ck == 'inf': eff = None
+        elif pk == 'inf': eff = tc.e
+        elif ck == 'inf': eff = tp.e
+        else: eff = z3.If(tp.e <= tc.e, tp.e, tc.e)
+        if eff is None:
+            decide(pc, 'ctx:deadline-not-min', 'the child context reports a finite deadline although neither the parent nor the request has one', z3.BoolVal(reported[0] == 'Infinite'))
+        else:
+            decide(pc, 'ctx:deadline-not-min', 'the deadline of the child context is not the minimum of the parent\'s deadline and the requested one', z3.And(z3.BoolVal(reported[0] == 'Finite'), (reported[1].e == eff) if reported[1] is not None else z3.BoolVal(False)))
+        if ('spawn',) not in lg:
+            decide(pc, 'ctx:no-watcher', 'no watcher task is spawned for the child context: neither the parent\'s cancellation nor the deadline would ever reach it', z3.BoolVal(False)); continue
+        due = z3.BoolVal(pcan) if eff is None else z3.Or(z3.BoolVal(pcan), eff <= now.e)
+        covered.add((pk, ck, pcan))
+        decide(pc, 'ctx:cancellation-lost', 'the parent is cancelled or the effective deadline has passed, but the watcher does not cancel the child context (cancellation does not reach a descendant)', z3.Implies(due, z3.BoolVal(bool(child_sent))))
+        decide(pc, 'ctx:spurious-cancel', 'the child context is cancelled although the parent is active and no deadline has passed', z3.Implies(z3.Not(due), z3.BoolVal(not child_sent)))
+    for k, text in viol.items(): rep.violation(Violation(PROP, k, text, None, None, 'Ctx::child_with_clock and its watcher'))
+    if len(covered) < 8 and not viol:
+        rep.add(Obligation(name, 'inconclusive', f'only {len(covered)} of the 8 deadline / cancellation configurations were reached')); return
     rep.add(Obligation(name, 'violated' if viol else 'discharged', paths=n, wall_s=round(time.time() - t0, 1)))
